@@ -6,7 +6,7 @@ import random
 
 from harness import project as pj
 
-POOL = ["a", "ab", "a_b", "b", "ba", "c", "abc", "d", "aa", "core", "util", "utils", "m1", "m"]
+POOL = ["a", "ab", "a_b", "b", "ba", "c", "abc", "d", "aa", "core", "util", "utils", "m1", "m", "axpy", "apy"]
 ODD = ["a+b", "c(d", "e-f", "g$", "h[1]"]          # legal file/dir names with regex metacharacters; never imported
 EXTERNALS = [["os"], ["os", "path"], ["xlib"], ["xlib", "sub"], ["xlib", "sub", "deep"], ["logging", "handlers"],
              ["ab"], ["a_b", "c"], ["rr", "x"], ["r2"], ["abx", "y"]]
